@@ -240,7 +240,7 @@ class Impl:
 # ----------------------------------------------------------------------------------------
 # judging one operation
 NO_VERDICT = ('Unspecified', 'OutOfModel')
-REJ = ('ValueError', 'sqlite3.Error')
+REJ = ('ValueError', 'sqlite3.Error', 'TypeError')   # any explicit error raised before anything is read or written is a rejection
 SHAPE = ('ValueError', 'TypeError', 'IndexError', 'sqlite3.Error')
 
 def is_err(r, name=None):
